@@ -17,7 +17,8 @@ def gen(tier, rng, shard, nshards):
                "rhs": S.pick(rng, ["generic", "generic", "eigvec", "few-eigvecs"]), "x0": "none",
                "start": S.pick(rng, ["given", "given", "given", "default", "batched"]),
                "m": S.pick(rng, ["1", "2", "n//2", "n-1", "n", "n+3", "n+10", "default"]),
-               "tol": float(S.pick(rng, [1e-12, 1e-12, 1e-8, 1e-5])), "fn": S.pick(rng, ["arnoldi", "arnoldi", "arnoldi", "arnoldi_eigs", "Arnoldi()"])}
+               "tol": float(S.pick(rng, [1e-12, 1e-12, 1e-8, 1e-5])), "fn": S.pick(rng, ["arnoldi", "arnoldi", "arnoldi", "arnoldi_eigs", "Arnoldi()"]),
+               "real_start": bool(rng.random() < 0.3)}
 
 
 def min_rel_residual(M, v, m):
@@ -52,7 +53,7 @@ def judge_one(ctx, case, M, v, Q, H, m_req, degree, preds):
     # Arnoldi relation A Q[:, :m] = Q H (the clipped normalisation is part of the algorithm: + tol ||A||)
     # (for m > n the statement promises the n-step factorisation padded with zeros: the relation concerns its n columns;
     # the (n+1)-th basis vector cannot be orthogonal to the first n and only has to be harmless)
-    Rm = M.astype(Q.dtype) @ Q[:, :m_eff] - (Q @ H)[:, :m_eff]
+    Rm = M @ Q[:, :m_eff] - (Q @ H)[:, :m_eff]
     ctx.check("arnoldi-relation", bool(np.abs(Rm).max(initial=0.0) <= 1e3 * eps * normA * n + 10 * tol * normA), site="arnoldi", preds=preds,
               detail={"dev": float(np.abs(Rm).max(initial=0.0)), "normA": normA, "tol": tol})
     # orthonormality of the first min(m+1, d) columns, to the accuracy a single-pass MGS Arnoldi can have:
@@ -109,6 +110,9 @@ def run_case(ctx, case):
         kw["start_vector"] = v
     else:
         v = b
+        if cplx and case.get("real_start") and case["rhs"] == "generic":
+            v = np.ascontiguousarray(v.real)  # a real start vector for a complex operator (narrower dtype than the operator)
+            preds["start_narrower_than_operator"] = True
         kw["start_vector"] = v
     if case["fn"] == "arnoldi_eigs" and case["start"] != "batched":
         out = ctx.call(arnoldi_eigs, A, **kw)
